@@ -160,9 +160,11 @@ def call_builtin(engine, st, fr, name, args, kwargs, star, starkw, node):
     elif name == "id":
         yield st, Z(Val.id(engine.to_val(st, a[0])), "int")
     elif name == "asyncio.get_event_loop":
-        yield st, Z(fresh("loop", Val), "any")
+        lp = Z(fresh("loop", Val), "any")
+        st.trace.append(Event("get_event_loop", ret=lp.t))
+        yield st, lp
     elif name == "asyncio.wrap_future":
-        st.trace.append(Event("wrap_future", args=[engine.to_val(st, a[0])]))
+        st.trace.append(Event("wrap_future", args=[engine.to_val(st, a[0])], kwargs={k: engine.to_val(st, v) for k, v in kwargs.items()}))
         yield st, Z(fresh("aio_future", Val), "any")
     else:
         raise Unsupported("builtin %s" % name)
